@@ -285,16 +285,21 @@ def search_models(chk, pid, quick):
     """Design-level: the algorithmic model of the searcher on small abstract games."""
     from check import model_check
     plan = {
-        "C03": [("MCSearch", "MCSearch_legal", False), ("MCSearch", "MCSearch_collide", True)] + ([] if quick else [("MCSearch", "MCSearch_legal_t", False)]),
+        "C03": [("MCSearch", "MCSearch_legal", False), ("MCSearch", "MCSearch_collide", True), ("MCSearch", "MCSearch_tiny_legal", False), ("MCSearch", "MCSearch_tiny_notag", True)]
+               + ([] if quick else [("MCSearch", "MCSearch_legal_t", False)]),
         "C04": [("MCSearch", "MCSearchCtl", False), ("MCSearch", "MCSearchCtl_pinned", True), ("MCSearch", "MCSearchCtl2", False),
                 ("MCSearch", "MCSearch_mated", False), ("MCSearch", "MCSearch_mated_pinned", True)],
-        "C06": [("MCSearch", "MCSearch_mate", False), ("MCSearch", "MCSearch_qs", False), ("MCSearch", "MCSearch_rich", False)],
+        "C06": [("MCSearch", "MCSearch_mate", False), ("MCSearch", "MCSearch_qs", False), ("MCSearch", "MCSearch_rich", False), ("MCSearch", "MCSearch_richtiny", False),
+                ("MCSearch", "MCSearch_tiny", None)],
         "C17": [("MCSearch", "MCSearch_history", False), ("MCSearch", "MCSearch_history_t", False)],
         "C19": [("MCSearch", "MCSearch_det", False)],
     }[pid]
     for mod, cfg, expect in plan:
         if os.path.exists(os.path.join(SPEC, cfg + ".cfg")):
-            model_check(chk, mod, cfg=cfg, workers=6, expect_violation=expect, timeout=2400)
+            if expect is None:
+                model_check(chk, mod, cfg=cfg, workers=6, informative=True, timeout=2400)
+            else:
+                model_check(chk, mod, cfg=cfg, workers=6, expect_violation=expect, timeout=2400)
         else:
             chk.notes.append("model configuration %s not present in this revision" % cfg)
 
